@@ -735,6 +735,13 @@ class Engine:
             raise Unsupported('field %d of %r at %s' % (idx, v, where))
         if k == 'v':
             return ('variant', v, step[1])
+        if k == 'sub':
+            lo, hi = step[1], step[2]
+            if isinstance(v, Tup):
+                return Tup(v.fs[lo:hi])
+            if isinstance(v, Seq) and v.prefix and isinstance(v.n, int):
+                return Tup(v.elems[lo:hi])
+            raise Unsupported('subslice of %r' % (v,))
         if k == 'i':
             idx = step[1]
             elems = v.fs if isinstance(v, Tup) else (v.elems if isinstance(v, Seq) else None)
@@ -827,6 +834,15 @@ class Engine:
             vs = dict(v.vs)
             vs[vi] = pl
             return En(v.name, v.d, vs, v.base)
+        if st[0] == 'sub':
+            lo, hi = st[1], st[2]
+            if not isinstance(v, Tup):
+                raise Unsupported('subslice write into %r' % (v,))
+            cur = Tup(v.fs[lo:hi])
+            upd = self.write_path(cur, path[1:], new, mem, guard, where)
+            if not isinstance(upd, Tup) or len(upd.fs) != hi - lo:
+                raise Unsupported('subslice write of wrong shape')
+            return Tup(v.fs[:lo] + upd.fs + v.fs[hi:])
         if st[0] == 'i':
             idx = st[1]
             if isinstance(v, Tup):
@@ -968,6 +984,8 @@ class FnRun:
                 if isinstance(v, Ref):
                     return v
             if kind.startswith('PointerCoercion(ClosureFnPointer') or kind.startswith('PointerCoercion(ReifyFnPointer'):
+                return v
+            if isinstance(v, Opaque):
                 return v
             raise Unsupported('cast %s of %r in %s' % (kind, v, self.where()))
         if k == 'discr':
@@ -1280,6 +1298,14 @@ def _const(self, text, ty_hint=None):
                 return Tup([v] * int(n))
         else:
             return Tup([self.const(p) for p in M.split_top(inner)])
+    m = re.fullmatch(r'(.*?) \{\{ (.*) \}\}', t)
+    if m:
+        nm = _strip_generics(m.group(1)).split('::')[-1]
+        vals = {}
+        for k, it in enumerate(M.split_top(m.group(2))):
+            kk = it.index(': ')
+            vals[k] = self.const(it[kk + 2:].strip())
+        return Adt(nm, vals, None)
     # zero-sized function item / closure:  path::to::fn  or {closure@..}
     if t.startswith('ZeroSized: '):
         t = t[11:].strip()
